@@ -317,7 +317,8 @@ Definition notify_waiters_code (n : nat) (k : code) : code :=
         if negb (flags_ok x) then None
         else
           let ws := nt_waiters x in
-          let x1 := fold_left (fun acc id => nt_set_flag acc id FL_NOTIFIED) ws (nt_set_waiters (nt_set_pending x false) []) in
+          (* a stored permit stays stored (since /repo 074a1e3; before, pending was cleared: fixed finding C19-F5) *)
+          let x1 := fold_left (fun acc id => nt_set_flag acc id FL_NOTIFIED) ws (nt_set_waiters x []) in
           Some (e, nt_put st n x1, map N.of_nat ws)
       | None => None end)
     (fun a => send_all n (map N.to_nat a) k).
